@@ -8,6 +8,7 @@
   Only the property theorems live here.
 -/
 import Glb.Proofs.Store
+import Glb.Proofs.StoreConc
 
 namespace Glb.C05
 open Glb Glb.Router Glb.Store
@@ -162,6 +163,157 @@ theorem ids_unique (grow : Nat → Nat) (render : Nat → Bytes) (hinj : ∀ a b
 /-- the concrete instance of the rendering contract: base 36, digits `0-9a-z` -/
 theorem render36_injective : ∀ a b, render36 a = render36 b → a = b := fun _ _ h => render36_inj h
 
+/-! ## The concurrent case: interleaving semantics (`Glb/Model/StoreConc.lean`)
+
+  Events `begin k req names choice` / `finish k beh` / `register p m` / `drop i`, any number of
+  requests in flight at once; a history is any list of events (events that are not enabled do
+  nothing).  `sequential_observation_is_begin` links the two models: a sequential `serve` observes
+  exactly what `begin` observes in an interleaving state with the same trie, prefix and counter. -/
+
+/-- the sequential model's request and the interleaving model's `begin` observe the same thing
+    whenever trie, prefix and counter agree — whatever is pooled or in flight on either side -/
+theorem sequential_observation_is_begin (grow grow' : Nat → Nat) (render : Nat → Bytes) (mux : MuxSt) (s : CState)
+    (hm : PoolInv mux) (hs : CInv s) (hroot : mux.root = s.root) (hpfx : mux.pfx = s.pfx)
+    (hc : mux.counter = s.counter) (k : Nat) (req : Req) (names : List Bytes) (beh : Behaviour)
+    (choice choice' : Option Nat) :
+    (serve grow render mux req names beh choice).2 = (beginReq grow' render s k req names choice').2 := by
+  obtain ⟨o, ho, h1, _⟩ := serve_spec grow render hm req names beh choice
+  obtain ⟨o', ho', h2, _⟩ := begin_spec grow' render hs k req names choice'
+  rw [hroot, hpfx, hc, ho'] at ho
+  cases ho
+  rw [h1, h2]
+
+/-- **Pool invariant and ownership, concurrently.**  In every reachable state of the interleaving
+    semantics the pool invariant holds (every pooled Store is at rest), the request keys in flight
+    are pairwise distinct, and the identities of all Stores known to the Mux — pooled ones followed
+    by those in flight — are pairwise distinct: no Store is pooled twice, in flight twice, or both
+    pooled and in flight. -/
+theorem pool_inv_concurrent (grow : Nat → Nat) (render : Nat → Bytes) (pfx : Bytes) (hp : pfx.length = 9)
+    (evs : List CEvent) :
+    PoolInv (crun grow render (cfresh pfx) evs).toMux ∧
+    ((crun grow render (cfresh pfx) evs).pool.map (·.1) ++ (crun grow render (cfresh pfx) evs).inflight.map (·.sid)).Nodup ∧
+    ((crun grow render (cfresh pfx) evs).inflight.map (·.key)).Nodup := by
+  obtain ⟨h, _⟩ := crun_inv grow render evs (cfresh_inv pfx hp)
+  exact ⟨h.toMux, h.own, h.keys⟩
+
+/-- **Isolation, concurrently.**  In every reachable state of the interleaving semantics — any
+    number of other requests in flight, whatever they matched, whatever their handlers will do —
+    for every choice the pool makes and every request, `begin` fixes the observations of the relay
+    and the handler to `.ok o` (no panic), where `o` is exactly what the same request observes on a
+    fresh Mux on which only the registrations made so far were made (sequential model, `regRun`);
+    the two differ in nothing but the counter part of the id. -/
+theorem request_isolated_concurrent (grow grow' : Nat → Nat) (render : Nat → Bytes) (pfx : Bytes)
+    (hp : pfx.length = 9) (evs : List CEvent) (k : Nat) (req : Req) (names : List Bytes) (choice : Option Nat) :
+    ∃ o : Obs, o.status = 0 ∧
+      (beginReq grow render (crun grow render (cfresh pfx) evs) k req names choice).2 =
+        .ok [{ o with id := pfx ++ render ((crun grow render (cfresh pfx) evs).counter + 1) },
+             { o with id := pfx ++ render ((crun grow render (cfresh pfx) evs).counter + 1) }] ∧
+      (serve grow' render (regRun pfx (crun grow render (cfresh pfx) evs).regs) req names {} none).2 =
+        .ok [{ o with id := pfx ++ render 1 }, { o with id := pfx ++ render 1 }] := by
+  obtain ⟨hI, hpfx⟩ := crun_inv grow render evs (cfresh_inv pfx hp)
+  have hpf : (cfresh pfx).pfx = pfx := rfl
+  rw [hpf] at hpfx
+  obtain ⟨hI0, hc0, hpfx0⟩ := regRun_inv pfx hp (crun grow render (cfresh pfx) evs).regs
+  obtain ⟨o, ho, hs, _⟩ := begin_spec grow render hI k req names choice
+  obtain ⟨o0, ho0, hs0, _⟩ := serve_spec grow' render hI0 req names {} none
+  obtain ⟨S, P, hT⟩ := hI.trie
+  obtain ⟨o', ho', hst, hid⟩ := obsPure_ok hT req names
+    ((crun grow render (cfresh pfx) evs).pfx ++ render ((crun grow render (cfresh pfx) evs).counter + 1))
+  rw [ho] at ho'
+  cases ho'
+  rw [hpfx] at hid ho
+  have hroot := hI.regsRoot.1
+  rw [hpfx] at hroot
+  rw [hpfx0, hc0, ← hroot] at ho0
+  have := obsPure_id _ _ _ _ (pfx ++ render (0 + 1)) o ho
+  rw [this] at ho0
+  cases ho0
+  refine ⟨o, hst, ?_, hs0⟩
+  rw [hs]
+  have : ({ o with id := pfx ++ render ((crun grow render (cfresh pfx) evs).counter + 1) } : Obs) = o := by
+    rw [← hid]
+  rw [this]
+
+/-- the fresh Mux of `request_isolated_concurrent` is the sequential model's Mux after exactly the
+    `Handle` calls made so far -/
+theorem regRun_is_sequential (grow : Nat → Nat) (render : Nat → Bytes) (pfx : Bytes) (regs : List (Bytes × Bytes)) :
+    run grow render (fresh pfx) (regs.map fun r => Op.handle r.1 r.2) = regRun pfx regs :=
+  run_handles_eq_regRun grow render pfx regs
+
+/-- the ids observed by the requests begun in a history of the interleaving semantics, in order -/
+def begunIds (grow : Nat → Nat) (render : Nat → Bytes) : CState → List CEvent → List Bytes
+  | _, [] => []
+  | s, e :: evs =>
+    let rest := begunIds grow render (cstep grow render s e) evs
+    match e with
+    | .begin k req names choice =>
+      if cenabled s e then
+        match (beginReq grow render s k req names choice).2 with
+        | .ok (o :: _) => o.id :: rest
+        | _ => rest
+      else rest
+    | _ => rest
+
+/-- **Ids are unique, concurrently.**  The ids of all requests begun so far in any interleaving
+    (finished or still in flight) are pairwise distinct, given an injective counter rendering. -/
+theorem ids_unique_concurrent (grow : Nat → Nat) (render : Nat → Bytes) (hinj : ∀ a b, render a = render b → a = b)
+    (pfx : Bytes) (hp : pfx.length = 9) (evs : List CEvent) :
+    (begunIds grow render (cfresh pfx) evs).Nodup := by
+  have gen : ∀ (evs : List CEvent) (s : CState), CInv s →
+      ∃ cs : List Nat, begunIds grow render s evs = cs.map (fun c => s.pfx ++ render c) ∧
+        cs.Pairwise (· < ·) ∧ ∀ c ∈ cs, s.counter < c := by
+    intro evs
+    induction evs with
+    | nil => intro s _; exact ⟨[], rfl, List.Pairwise.nil, by simp⟩
+    | cons e evs ih =>
+      intro s h
+      obtain ⟨hinv, hpfx⟩ := cstep_inv grow render h e
+      obtain ⟨cs, hcs, hpw, hgt⟩ := ih _ hinv
+      have hcnt := cstep_counter grow render h e
+      have same : ∀ (hc : (cstep grow render s e).counter = s.counter),
+          begunIds grow render (cstep grow render s e) evs = cs.map (fun c => s.pfx ++ render c) ∧
+          ∀ c ∈ cs, s.counter < c := by
+        intro hc
+        exact ⟨by rw [hcs, hpfx], fun c hcm => hc ▸ hgt c hcm⟩
+      cases e with
+      | finish k beh =>
+        simp only [Nat.add_zero] at hcnt
+        exact ⟨cs, by simp only [begunIds]; exact (same hcnt).1, hpw, (same hcnt).2⟩
+      | register p m =>
+        simp only [Nat.add_zero] at hcnt
+        exact ⟨cs, by simp only [begunIds]; exact (same hcnt).1, hpw, (same hcnt).2⟩
+      | drop i =>
+        simp only [Nat.add_zero] at hcnt
+        exact ⟨cs, by simp only [begunIds]; exact (same hcnt).1, hpw, (same hcnt).2⟩
+      | «begin» k req names choice =>
+        cases hen : cenabled s (.begin k req names choice) with
+        | false =>
+          simp only [hen, Bool.false_eq_true, if_false, Nat.add_zero] at hcnt
+          exact ⟨cs, by simp only [begunIds, hen, Bool.false_eq_true, if_false]; exact (same hcnt).1, hpw, (same hcnt).2⟩
+        | true =>
+          simp only [hen, if_true] at hcnt
+          obtain ⟨o, ho, hs, _⟩ := begin_spec grow render h k req names choice
+          obtain ⟨S, P, hT⟩ := h.trie
+          obtain ⟨o', ho', _, hid⟩ := obsPure_ok hT req names (s.pfx ++ render (s.counter + 1))
+          rw [ho] at ho'; cases ho'
+          refine ⟨(s.counter + 1) :: cs, ?_, ?_, ?_⟩
+          · simp only [begunIds, hen, if_true, hs, hcs, hpfx, List.map_cons, hid]
+          · refine List.Pairwise.cons ?_ hpw
+            intro c hc
+            have := hgt c hc
+            omega
+          · intro c hc
+            simp only [List.mem_cons] at hc
+            rcases hc with rfl | hc
+            · omega
+            · have := hgt c hc; omega
+  obtain ⟨cs, hcs, hpw, _⟩ := gen evs (cfresh pfx) (cfresh_inv pfx hp)
+  rw [hcs]
+  refine List.Pairwise.map _ ?_ hpw
+  intro a b hab heq
+  have := hinj a b (List.append_cancel_left heq)
+  omega
+
 deriving instance DecidableEq for Except
 
 /-! ### non-vacuity -/
@@ -188,5 +340,29 @@ example : (serve (fun c => 2 * c) render36 (run (fun c => 2 * c) render36 (fresh
     ⟨[47, 110, 111, 112, 101], [71, 69, 84]⟩ [[97], [98]] {} (some 0)).2 =
     .ok [⟨.noRoute, [[], []], [], 0, exPfx ++ render36 2⟩, ⟨.noRoute, [[], []], [], 0, exPfx ++ render36 2⟩] := by
   decide
+
+/-- two overlapping requests (and a third one reusing the Store the first one returned while the
+    second is still in flight): `/u/:a/:b` registered; request 1 `GET /u/1/2` begins; request 2
+    `GET /nope` begins; 1 finishes (status 404 written); request 3 is about to begin. -/
+def exEvents : List CEvent :=
+  [.register [47, 117, 47, 58, 97, 47, 58, 98] [71, 69, 84],
+   .begin 1 ⟨[47, 117, 47, 49, 47, 50], [71, 69, 84]⟩ [[97], [98]] none,
+   .begin 2 ⟨[47, 110, 111, 112, 101], [71, 69, 84]⟩ [[97], [98]] none,
+   .finish 1 { writeStatus := some 404 }]
+
+-- one Store is back in the pool, one is still in flight, three ids have not been used up yet
+example : ((crun (fun c => 2 * c) render36 (cfresh exPfx) exEvents).pool.length,
+    (crun (fun c => 2 * c) render36 (cfresh exPfx) exEvents).inflight.map (·.key),
+    (crun (fun c => 2 * c) render36 (cfresh exPfx) exEvents).counter) = (1, [2], 2) := by decide
+
+-- request 3 takes the Store request 1 used (choice `some 0`) while request 2 is in flight: it sees
+-- its own parameters, status 0 and the third id — nothing of request 1
+example : (beginReq (fun c => 2 * c) render36 (crun (fun c => 2 * c) render36 (cfresh exPfx) exEvents) 3
+    ⟨[47, 117, 47, 120, 47, 121], [71, 69, 84]⟩ [[97], [98]] (some 0)).2 =
+    .ok [⟨.route 0, [[120], [121]], [], 0, exPfx ++ render36 3⟩, ⟨.route 0, [[120], [121]], [], 0, exPfx ++ render36 3⟩] := by
+  decide
+
+example (evs : List CEvent) : (begunIds (fun c => 2 * c) render36 (cfresh exPfx) evs).Nodup :=
+  ids_unique_concurrent _ _ render36_injective exPfx (by decide) evs
 
 end Glb.C05
